@@ -11,9 +11,10 @@ states.  The lexical layer (tokenizers) is below these models (engines jsonlex, 
                                                       fromJSON_rejects_dup, fromJSON_rejects_oneof
   (3) uniqueness, text                                fromText_seen_iff, fromText_dup_iff, fromText_dupOneof_iff,
                                                       fromText_rejects_dup, fromText_rejects_oneof
-  (4) recursion limit                                 depth_limit_json, skip_json_honours_limit,
-                                                      depth_limit_text_partial (known fields), text_skip_ignores_limit (finding 10: the
-                                                      negation of the full statement), depth_limit_text_fixed (after the repair)
+  (4) recursion limit                                 depth_limit_json, depth_limit_json_rejects, skip_json_honours_limit,
+                                                      depth_limit_text (full: skipped values count since /repo 5d21ab7, the
+                                                      repair of finding 10), depth_limit_text_rejects, skip_text_honours_limit,
+                                                      text_skip_rejects; C26.Old.old_*: historical regression examples
   (5) totality                                        Lean functions are total; the Go panics that exist at this level are the
                                                       `Err.panic` branches of the model: no_panic_json, no_panic_text, bracket_slice_in_bounds
 -/
@@ -486,13 +487,38 @@ theorem skip_json_honours_limit (v : JV) :
 
 example : skipJ 1 0 (.arr (.cons (.arr .nil) .nil)) = .error .depth := rfl
 
-/-- **`depth_limit` (text), partial**: an accepted document is nested at most `RecursionLimit` deep *through
-known fields* (one level per message, one more per map field occurrence, lists free).
-The full statement — counting the values skipped for unknown or reserved names as well — is FALSE of the code
-as it is (`text_skip_ignores_limit` below, DESIGN finding 10). -/
-theorem depth_limit_text_partial (fs : TFields) (m : Msg) (h : fromText T D X mi limit fs = .ok m) :
-    (tdepthV false D X mi (.msg fs) : Int) ≤ limit :=
-  tdMsgV_depth false T D X (fun h => nomatch h) (.msg fs) mi limit m h
+/-- **`depth_limit` (text)**, the full statement: an accepted document is nested at most `RecursionLimit` deep —
+one level per message through known fields, one more per map field occurrence (`unmarshalMap`), lists free,
+*and* the messages inside the values skipped for unknown or reserved names (`skipMessageValue` counts them since
+/repo 5d21ab7, the repair of DESIGN finding 10; before it this statement was false, see `C26.Old`). -/
+theorem depth_limit_text (fs : TFields) (m : Msg) (h : fromText T D X mi limit fs = .ok m) :
+    (tdepthV D X mi (.msg fs) : Int) ≤ limit :=
+  tdMsgV_depth T D X (.msg fs) mi limit m h
+
+/-- contrapositive form: deeper than the limit ⇒ rejected -/
+theorem depth_limit_text_rejects (fs : TFields) (h : (tdepthV D X mi (.msg fs) : Int) > limit) (m : Msg) :
+    fromText T D X mi limit fs ≠ .ok m := fun hm => by
+  have := depth_limit_text T D X mi limit fs m hm
+  omega
+
+/-- **the text skip path honours the limit**, exactly: `skipValue` (entered with the limit that is left after
+the enclosing message) fails iff the skipped value nests more messages than that, and then with the
+recursion-depth error — the same contract as protojson's `skipJSONValue` -/
+theorem skip_text_honours_limit (v : TV) (h0 : 0 ≤ limit) :
+    skipT limit v = .error .depth ↔ (bdepth v : Int) > limit := by
+  constructor
+  · intro he
+    have hn : ¬ (bdepth v : Int) ≤ limit := fun hc => by
+      have := skipT_ok v limit hc
+      rw [he] at this
+      cases this
+    omega
+  · intro hd
+    cases hs : skipT limit v with
+    | ok u =>
+      have := skipT_depth v limit h0 hs
+      omega
+    | error e => rw [skipT_err limit v e hs]
 
 /-- a chain of `n` nested messages under the unknown name `a`: `a{a{…}}` -/
 def nest : Nat → TV
@@ -506,29 +532,38 @@ theorem bdepth_nest : ∀ n, bdepth (nest n) = n + 1
 /-- the one-message schema without fields -/
 def emptySchema : SchemaX := { msgs := [{ fields := [] }] }
 
-/-- **finding 10 — the negation of the full `depth_limit` for the text skip path.**
-`prototext.UnmarshalOptions{DiscardUnknown: true, RecursionLimit: 1}` accepts `a{a{…}}` nested ANY number
-`n` of levels deep: `skipValue`/`skipMessageValue` never look at the limit. -/
-theorem text_skip_ignores_limit (n : Nat) :
-    fromText T { discard := true } emptySchema 0 1 (.cons (.ident (ascii ['a'])) false (nest n) .nil) = .ok Msg.empty ∧
-    (tdepthV true { discard := true } emptySchema 0
-      (.msg (.cons (.ident (ascii ['a'])) false (nest n) .nil)) : Int) > 1 := by
-  constructor
-  · simp [fromText, tdMsgV, tdFields, tdHead, resolveText, emptySchema, SchemaX.msg]
-  · simp [tdepthV, tdepthFields, resolveText, emptySchema, SchemaX.msg, skippedDepth, bdepth_nest]
-    omega
-
-/-- **`depth_limit` (text) after the repair** (fixes/prototext-skip-depth.diff; model: `DOpts.skipLimited`):
-the full statement holds — skipped values count. -/
-theorem depth_limit_text_fixed (hfix : D.skipLimited = true) (fs : TFields) (m : Msg)
-    (h : fromText T D X mi limit fs = .ok m) : (tdepthV true D X mi (.msg fs) : Int) ≤ limit :=
-  tdMsgV_depth true T D X (fun _ => hfix) (.msg fs) mi limit m h
-
-/-- and the witness of finding 10 is then rejected with the recursion-depth error -/
-theorem text_skip_fixed_rejects (n : Nat) :
-    fromText T { discard := true, skipLimited := true } emptySchema 0 1
+/-- the old witness of finding 10 is rejected with the recursion-depth error:
+`UnmarshalOptions{DiscardUnknown: true, RecursionLimit: 1}` on `a{a{…}}` nested two or more levels deep -/
+theorem text_skip_rejects (n : Nat) :
+    fromText T { discard := true } emptySchema 0 1
       (.cons (.ident (ascii ['a'])) false (nest (n + 1)) .nil) = .error .depth := by
-  simp [fromText, tdMsgV, tdFields, tdHead, resolveText, emptySchema, SchemaX.msg, nest, skipTFix]
+  simp [fromText, tdMsgV, tdFields, tdHead, resolveText, emptySchema, SchemaX.msg, nest, skipT]
+
+/-- … and one level (exactly the limit that is left) is accepted -/
+example : fromText T { discard := true } emptySchema 0 2
+    (.cons (.ident (ascii ['a'])) false (nest 0) .nil) = .ok Msg.empty := by
+  simp [fromText, tdMsgV, tdFields, tdHead, resolveText, emptySchema, SchemaX.msg, nest, skipT, skipTFields]
+
+/-! ### HISTORICAL regression example (code before /repo 5d21ab7; DESIGN finding 10, now fixed)
+
+`skipValue` / `skipMessageValue` as they were (`skipTOld`) never looked at the recursion limit — any depth was
+walked, 12,000,000 levels ended the process with a stack overflow — and `unmarshalMessage` dropped their
+result.  Nothing here is about the current code; the harness replays the old witnesses on every run and reports
+a regression under the signature `prototext-skip-ignores-recursion-limit`. -/
+namespace Old
+
+/-- the old skip path accepted `a{a{…}}` at ANY depth, whatever the limit (it had no limit parameter at all) -/
+theorem old_skip_ignores_limit : ∀ n : Nat, skipTOld (nest n) = .ok ()
+  | 0 => rfl
+  | n + 1 => by
+    rw [nest, skipTOld, skipTFieldsOld, old_skip_ignores_limit n]
+    rfl
+
+/-- where the current one stops: the same value, limit 1 -/
+theorem old_witness_now_rejected (n : Nat) : skipT 1 (nest (n + 1)) = .error .depth := by
+  simp [nest, skipT, skipTFields]
+
+end Old
 
 /-! ## (5) totality
 
